@@ -97,6 +97,40 @@ example : guarded ["sleep", "listen", "test"] = false := by decide
 example : guarded ["sleep", "test", "listen", "listen"] = true := by decide
 example : guarded ["sleep", "test", "listen", "test", "listen"] = true := by decide
 
+/-- What may be called while the registry lock `mu` is held: the non-blocking `srv.Close()`, map bookkeeping
+(`make`, `len`, `delete`), the listener's address, a log line. Anything else — a `Shutdown(ctx)`, a `Wait`, a
+channel receive (`<-…`), a `go`, `time.Sleep` — is not in the list and breaks the obligation. -/
+def bookkeeping : List String :=
+  ["srv.Close", "log.Printf", "delete", "make", "len", "ln.Addr().String", "ln.Addr"]
+
+def onlyBookkeeping (l : List String) : Bool := l.all (fun e => bookkeeping.contains e)
+
+/-- **Tie of the lock assumption** (`Model.C18.lockAcquired`, hypothesis `hlock` of
+`shutdown_bounded_from_call`): in every function of proxy/serve.go that takes `mu` — `CloseProxy`, `Close`,
+`Shutdown`, `serve` — only bookkeeping happens between `mu.Lock()` and `mu.Unlock()`. -/
+theorem registry_lock_only_bookkeeping :
+    onlyBookkeeping underLockCloseProxy = true ∧ onlyBookkeeping underLockClose = true ∧
+    onlyBookkeeping underLockShutdown = true ∧ onlyBookkeeping underLockServe = true := by decide
+
+example : onlyBookkeeping ["context.WithTimeout", "context.Background", "srv.Shutdown", "cancel", "log.Printf", "delete"] = false := by decide
+example : onlyBookkeeping ["srv.Close", "<-done"] = false := by decide
+
+/-- `exit.Listen`: the signal registration is made before the handler runs and stays in force while it runs —
+nothing of os/signal is called besides `Notify` (no `signal.Stop`/`Reset`/`Ignore`), so a second SIGTERM/SIGINT
+during the drain is swallowed instead of killing the process with the default action. -/
+theorem exit_listen_keeps_signals_caught :
+    exitListenEvents = ["signal.Notify", "<-sigchan", "<-quit", "handler"] := by decide
+
+/-- The bounded-from-the-call theorem at the contract and the lock discipline read from this tree. -/
+theorem shutdown_bounded_from_call_on_this_tree (called wait : Nat) (srvs : List Server) :
+    tle (shutdownCalled (if grpcShutdownUsesCtx then .stopsAtDeadline else .ignoresDeadline) called
+          (if onlyBookkeeping (underLockCloseProxy ++ underLockClose ++ underLockShutdown ++ underLockServe) then called else called + 1)
+          wait srvs) (some (called + wait)) = true := by
+  have h1 : grpcShutdownUsesCtx = true := by decide
+  have h2 : onlyBookkeeping (underLockCloseProxy ++ underLockClose ++ underLockShutdown ++ underLockServe) = true := by decide
+  simp only [h1, h2, if_true]
+  exact (Props.C18.shutdown_bounded_from_call Props.C18.repaired_contract_bounded called called wait (Nat.le_refl _) srvs).1
+
 /-- The contract the current tree's `gRPCServer.Shutdown` follows, as far as the AST tells. -/
 def codeContract : GrpcContract := if grpcShutdownUsesCtx then .stopsAtDeadline else .ignoresDeadline
 
